@@ -145,6 +145,7 @@ func (h *Header) Parse(b []byte) error {
 	h.Flags = HeaderFlags(h.FragOff&0xe000) >> 13
 	h.FragOff = h.FragOff & 0x1fff
 	optlen := hdrlen - HeaderLen
+	h.Options = h.Options[:0] // do not keep the options of a previously parsed header
 	if optlen > 0 && len(b) >= hdrlen {
 		if cap(h.Options) < optlen {
 			h.Options = make([]byte, optlen)
